@@ -106,20 +106,30 @@ func (sp *ServiceProvider) ValidateAttributeQuerySignature(soapRequest string) e
 }
 
 func (sp *ServiceProvider) ValidateRedirectSignature(request, relayState, sigAlg, expectedSig string) error {
+	return sp.ValidateRedirectSignatureOverQuery(SignedRedirectQuery(request, relayState, sigAlg), sigAlg, expectedSig)
+}
+
+// SignedRedirectQuery builds the octet string the signature of a request in the redirect binding is calculated over,
+// out of the decoded values, with the escaping as net/url does it.
+func SignedRedirectQuery(request, relayState, sigAlg string) string {
+	if url.QueryEscape(relayState) != "" {
+		return fmt.Sprintf("SAMLRequest=%s&RelayState=%s&SigAlg=%s", url.QueryEscape(request), url.QueryEscape(relayState), url.QueryEscape(sigAlg))
+	}
+	return fmt.Sprintf("SAMLRequest=%s&SigAlg=%s", url.QueryEscape(request), url.QueryEscape(sigAlg))
+}
+
+// ValidateRedirectSignatureOverQuery verifies the signature of the redirect binding over an already built octet string,
+// signedQuery has to be of the form SAMLRequest=value[&RelayState=value]&SigAlg=value with the values still escaped
+// and sigAlg has to be the unescaped value of the SigAlg contained in it.
+func (sp *ServiceProvider) ValidateRedirectSignatureOverQuery(signedQuery, sigAlg, expectedSig string) error {
 	if sp.signerPublicKey == nil {
 		return fmt.Errorf("error can not validate signature if no certificate is present for this service provider")
 	}
 
-	elementToSign := make([]byte, 0)
-	if url.QueryEscape(relayState) != "" {
-		elementToSign = []byte(fmt.Sprintf("SAMLRequest=%s&RelayState=%s&SigAlg=%s", url.QueryEscape(request), url.QueryEscape(relayState), url.QueryEscape(sigAlg)))
-	} else {
-		elementToSign = []byte(fmt.Sprintf("SAMLRequest=%s&SigAlg=%s", url.QueryEscape(request), url.QueryEscape(sigAlg)))
-	}
 	signatureValue, err := base64.StdEncoding.DecodeString(expectedSig)
 	if err != nil {
 		return err
 	}
 
-	return signature.ValidateRedirect(sigAlg, elementToSign, signatureValue, sp.signerPublicKey)
+	return signature.ValidateRedirect(sigAlg, []byte(signedQuery), signatureValue, sp.signerPublicKey)
 }
